@@ -184,6 +184,13 @@ func (un *Unit) onAcquire(fr *Frame, st *State, lp *Place, pos token.Pos) {
 		tm, _ := un.evalSpec(cl.E, sc)
 		un.assume(st, tm)
 	}
+	// monitor methods specify their critical section: with `opt old-at-acquire`, old(...) in the postconditions
+	// denotes the state right after the (first) acquisition, i.e. the linearisation point's pre-state
+	if un.contract != nil && un.acquireSnap == nil {
+		if _, ok := un.contract.Opts["old-at-acquire"]; ok {
+			un.acquireSnap = st.clone()
+		}
+	}
 }
 
 func (un *Unit) onRelease(fr *Frame, st *State, lp *Place, pos token.Pos) {
